@@ -266,3 +266,126 @@ func ruleSC(w *world.World, r *report.RuleResult) {
 		r.Fail("anchor", "-", "no function of the pub/sub table writes confirmation frames in a loop over channel names: the subscribe path is lost")
 	}
 }
+
+func init() {
+	register("FC", 1, "find-or-create in a loop: when a function of the pub/sub table walks the names it was given, looks each one up in the channel table and creates a channel for a name it does not find, the new channel is put into that table before the next name is looked up — otherwise a name given twice in one command creates two channel objects, and every later message is delivered twice", ruleFC)
+}
+
+func ruleFC(w *world.World, r *report.RuleResult) {
+	n := 0
+	for _, fn := range w.FuncsIn("internal/modules/pubsub") {
+		if fn.Signature.Recv() == nil || fn.Parent() != nil || fn.Blocks == nil {
+			continue
+		}
+		recvT := fn.Signature.Recv().Type()
+		for _, c := range world.Calls(fn) {
+			call, ok := c.(*ssa.Call)
+			if !ok {
+				continue
+			}
+			g := call.Call.StaticCallee()
+			if g == nil || !world.InModule(g) || g.Signature.Recv() != nil || g.Signature.Results().Len() != 1 {
+				continue
+			}
+			elemT := g.Signature.Results().At(0).Type()
+			if _, isPtr := elemT.(*types.Pointer); !isPtr || world.NamedOf(elemT) == nil {
+				continue
+			}
+			// the table: a field of the receiver of type []elemT
+			isTableStore := func(in ssa.Instruction) bool {
+				st, ok := in.(*ssa.Store)
+				if !ok {
+					return false
+				}
+				fa, ok := st.Addr.(*ssa.FieldAddr)
+				if !ok || !types.Identical(fa.X.Type(), recvT) {
+					return false
+				}
+				sl, ok := st.Val.Type().Underlying().(*types.Slice)
+				return ok && types.Identical(sl.Elem(), elemT)
+			}
+			// enclosing loop
+			var header *ssa.BasicBlock
+			for _, h := range fn.Blocks {
+				if !h.Dominates(call.Block()) {
+					continue
+				}
+				for _, p := range h.Preds {
+					if h.Dominates(p) && (header == nil || header.Dominates(h)) {
+						header = h
+					}
+				}
+			}
+			if header == nil {
+				continue
+			}
+			n++
+			key := fmt.Sprintf("%s|created-element-enters-table#%d", world.FuncName(fn), n)
+			// every feasible path from the creation to the loop header passes a store to the table
+			var bad ssa.Instruction
+			undecided := ""
+			seen := map[*ssa.BasicBlock]bool{}
+			var walk func(b *ssa.BasicBlock, from int)
+			walk = func(b *ssa.BasicBlock, from int) {
+				for i := from; i < len(b.Instrs); i++ {
+					if isTableStore(b.Instrs[i]) {
+						return
+					}
+				}
+				succs := b.Succs
+				if iff := world.IfOf(b); iff != nil {
+					cnd := iff.Cond
+					neg := false
+					if u, ok := cnd.(*ssa.UnOp); ok && u.Op == token.NOT {
+						cnd, neg = u.X, true
+					}
+					if cc, ok := cnd.(*ssa.Call); ok {
+						if pf := cc.Call.StaticCallee(); pf != nil && world.InModule(pf) {
+							switch boolSummary(pf) {
+							case +1:
+								if neg {
+									succs = []*ssa.BasicBlock{b.Succs[1]}
+								} else {
+									succs = []*ssa.BasicBlock{b.Succs[0]}
+								}
+							case 0:
+								undecided = world.FuncName(pf)
+							}
+						}
+					}
+				}
+				for _, s := range succs {
+					if s == header {
+						bad = b.Instrs[len(b.Instrs)-1]
+						continue
+					}
+					if !header.Dominates(s) {
+						continue // leaves the loop
+					}
+					if !seen[s] {
+						seen[s] = true
+						walk(s, 0)
+					}
+				}
+			}
+			idx := 0
+			for i, in := range call.Block().Instrs {
+				if in == ssa.Instruction(call) {
+					idx = i + 1
+				}
+			}
+			walk(call.Block(), idx)
+			switch {
+			case bad == nil:
+				r.OK(key, w.InstrPos(call), "the element created for a name that was not found is stored into the table before the next iteration")
+			case undecided != "":
+				r.Skip(key, w.InstrPos(call), "whether the store is skipped depends on "+undecided+", which this analysis cannot decide")
+			default:
+				r.Fail(key, w.InstrPos(call), fmt.Sprintf("%s creates an element for a name it did not find in the table, but can start the next iteration (at %s) without having put it into the table: a name given twice in one command is not found the second time either, a second object is created for it, and from then on every message published to that name is delivered twice (and the name is listed twice)", world.FuncName(fn), w.InstrPos(bad)))
+			}
+		}
+	}
+	if n == 0 {
+		r.Skip("no-instance", "-", "no loop of the pub/sub table creates elements")
+	}
+}
